@@ -144,6 +144,10 @@ pub fn parse_rootdefinition_globalvariable(
             gv_ir.lang_slot.set = Some(binding_group);
         }
 
+        if let Some(group_index) = gv_ir.lang_slot.set {
+            check_bind_group_index(group_index, name.location)?;
+        }
+
         gv_ir.init = var_init;
         gv_ir.static_sampler = static_sampler;
 
@@ -336,6 +340,10 @@ pub fn parse_rootdefinition_constantbuffer(
         cb_ir.lang_binding.set = Some(binding_group);
     }
 
+    if let Some(group_index) = cb_ir.lang_binding.set {
+        check_bind_group_index(group_index, cb.name.location)?;
+    }
+
     // Only arrays of resources can be bindless
     if attribute_result.is_bindless {
         return Err(TyperError::GlobalAttributeUnknown(
@@ -462,6 +470,18 @@ fn parse_attributes_for_global(
     }
 
     Ok(result)
+}
+
+/// The largest bind group index we accept
+/// The reflection data has an entry for every group up to the highest used one so the index must stay small
+pub const MAX_BIND_GROUP_INDEX: u32 = 1023;
+
+/// Ensure a bind group index is in the range we can generate bindings for
+pub fn check_bind_group_index(group_index: u32, location: SourceLocation) -> TyperResult<()> {
+    if group_index > MAX_BIND_GROUP_INDEX {
+        return Err(TyperError::BindGroupIndexTooLarge(group_index, location));
+    }
+    Ok(())
 }
 
 /// Type check and constant evaluate an ast expression to get a u32
